@@ -16,7 +16,7 @@ from ..core import Check, Unit
 from ..sym import all_close, close
 
 METHODS = [None, "lsoda", "vode", "ivode", "dopri5", "dop853"]
-FORMS = ["list", "tuple", "array", "scalar", "int_array", "int_list", "int_tuple"]
+FORMS = ["list", "tuple", "array", "scalar", "int_array", "int_list", "int_tuple", "from_t0"]
 
 
 def _grid(c, k, form):
@@ -30,12 +30,15 @@ def _grid(c, k, form):
     t0 = c.real("t0")
     ts = []
     prev = t0
-    for j in range(k):
+    if form == "from_t0":
+        # boundary grid: the first requested time IS the initial time (np.linspace(t0, T, n) handed over whole)
+        ts.append(t0)
+    for j in range(k - len(ts)):
         tj = c.real("t%d" % (j + 1))
         c.assume(tj > prev)
         prev = tj
         ts.append(tj)
-    if form == "list":
+    if form in ("list", "from_t0"):
         g = list(ts)
     elif form == "tuple":
         g = tuple(ts)
@@ -170,7 +173,8 @@ class C02(Check):
                    "handed to the integrator is the model's f/Jacobian in the argument order that integrator expects. "
                    "Counterexamples are replayed with real floats and the real Fortran integrators against a closed-form / "
                    "tight-tolerance reference solution.  Requested times are given as symbolic reals (list/tuple/array/scalar) and as TYPED integer grids "
-                   "(int array/list/tuple with a fractional t0): the first evaluation handed to the integrator must be at the supplied t0.")
+                   "(int array/list/tuple with a fractional t0): the first evaluation handed to the integrator must be at the supplied t0; and as a grid whose "
+                   "first requested time IS the initial time.")
     stubs = ["scipy.integrate.ode (contract, measured buffer policy)", "scipy.integrate.odeint (contract)", "numpy.linalg.eig (free real eigenvalues)"]
     assumptions = ["scipy's integrators return the ODE solution at the requested time to their tolerance (Fortran; not decided here)",
                    "floats modelled as reals; finite inputs; strictly increasing time grid",
